@@ -3,6 +3,8 @@
 //   p2p <lo> <hi>          for every source s in [lo,hi) and every d: marker, ONE async s->d, barrier
 //                          (routing = YGM_COMM_ROUTING); wire log carries the isend sequence
 //   bcast <lo> <hi>        for every origin o in [lo,hi): marker, ONE async_bcast from o, barrier
+//   subbcast <split> <order>  world + a sub-communicator of another layout, same handler type broadcast from
+//                          every origin of each; every member prints its per-origin execution counts
 //   conc <script>          concurrent broadcasts / mcasts / point-to-point asyncs, also issued from handlers
 //     script = ops separated by ';', op index = uid:
 //       <R|C> b <issuer> <child>            async_bcast
@@ -48,6 +50,16 @@ void issue(ygm::comm& c, int idx) {
     case 'm': c.async_mcast(o.dests, handler(), idx, o.child); break;
     case 'a': c.async(o.dest, handler(), idx, o.child); break;
   }
+}
+// one handler TYPE for the broadcasts of every communicator of the sub-communicator mode
+std::vector<std::vector<int>> g_hits;
+struct bump { void operator()(int tag, int origin) { g_hits[tag][origin]++; } };
+void bcast_all(ygm::comm& c, int tag) {
+  g_hits[tag].assign(c.size(), 0);
+  for (int o = 0; o < c.size(); ++o) { if (c.rank() == o) c.async_bcast(bump(), tag, o); c.barrier(); }
+  std::ostringstream os; os << "hits " << tag << " " << c.layout().node_size() << " " << c.layout().local_size() << " " << c.rank() << " :";
+  for (int o = 0; o < c.size(); ++o) os << " " << g_hits[tag][o];
+  hc::out(os.str());
 }
 const char* sname(int k) { return k == 0 ? "NONE" : k == 1 ? "NR" : "NLNR"; }
 }  // namespace
@@ -95,6 +107,21 @@ extern "C" int sim_main(int argc, char** argv) {
       world.barrier();
     }
     if (me == 0) hc::ev("end");
+  } else if (mode == "subbcast") {
+    // communicators with DIFFERENT layouts in one process, the same handler type broadcast on each of them
+    // split: 0 = by parity of the local id, 1 = lower / upper half of the local ids, 2 = by parity of the node id
+    int split = atoi(argv[2]), order = atoi(argv[3]);
+    const auto& L = world.layout();
+    int color = split == 0 ? L.local_id() % 2 : split == 1 ? (L.local_id() < L.local_size() / 2 ? 0 : 1) : L.node_id() % 2;
+    MPI_Comm subc; MPI_Comm_split(MPI_COMM_WORLD, color, me, &subc);
+    g_hits.resize(3);
+    {
+      ygm::comm sub(subc);
+      if (order == 0) { bcast_all(world, 0); bcast_all(sub, 1); bcast_all(world, 2); }
+      else { bcast_all(sub, 1); bcast_all(world, 0); bcast_all(sub, 2); }
+      world.barrier();
+    }
+    MPI_Comm_free(&subc);
   } else if (mode == "conc") {
     g_ops = parse(argv[2]); g_cnt.assign(g_ops.size(), 0);
     int nb = 0;
